@@ -522,6 +522,9 @@ func (t *fnTrans) call(in ssa.Instruction, cc *ssa.CallCommon, res ssa.Value) {
 			t.invokeCall(in, cc, res, tgts)
 			return
 		}
+		if t.readerRead(in, cc, res) {
+			return
+		}
 		t.externalCall(in, cc.Method.FullName(), cc, res)
 		return
 	}
@@ -645,16 +648,21 @@ func (t *fnTrans) externalCall(in ssa.Instruction, name string, cc *ssa.CallComm
 	allocBefore := t.h.get(t.cur, "alloc")
 	t.havocVars(s.all, s.vars)
 	rs := t.freshResults(res, nameOf(res, "r"))
-	// trusted: slices returned by library calls are freshly allocated
+	// trusted: slices returned by library calls are freshly allocated; their errors are not mangos errors
 	if res != nil {
 		if tu, ok := res.Type().(*types.Tuple); ok {
 			for i := 0; i < tu.Len(); i++ {
+				if tu.At(i).Type().String() == "error" {
+					t.libErrorFact(rs[i])
+				}
 				if _, isSl := tu.At(i).Type().Underlying().(*types.Slice); isSl {
 					t.assume("(or (= (sl_arr " + rs[i] + ") 0) (> (sl_arr " + rs[i] + ") " + allocBefore + "))")
 				}
 			}
 		} else if _, isSl := res.Type().Underlying().(*types.Slice); isSl {
 			t.assume("(or (= (sl_arr " + rs[0] + ") 0) (> (sl_arr " + rs[0] + ") " + allocBefore + "))")
+		} else if res.Type().String() == "error" {
+			t.libErrorFact(rs[0])
 		}
 	}
 }
@@ -1121,7 +1129,11 @@ func (t *fnTrans) mBEPut(in ssa.Instruction, cc *ssa.CallCommon, res ssa.Value) 
 		shift := pow2(8 * (nb - 1 - i))
 		na = store(na, fmt.Sprintf("(+ (sl_off %s) %d)", b, i), "(mod (div "+v+" "+shift+") 256)")
 	}
-	t.h.set(t.cur, "E:Int", store(e, "(sl_arr "+b+")", na))
+	naN := t.c.define(t.c.fresh("be.arr"), "(Array Int Int)", na)
+	t.h.set(t.cur, "E:Int", store(e, "(sl_arr "+b+")", naN))
+	// hint: decoding the bytes just written gives back v (lemma spec/lemmas/be_roundtrip.smt2, proved separately)
+	fn := map[int]string{2: "be16", 4: "be32", 8: "be64"}[nb]
+	t.assume(implies(fmt.Sprintf("(and (<= 0 %s) (< %s %s))", v, v, pow2(8*nb)), fmt.Sprintf("(= (%s %s (sl_off %s)) %s)", fn, naN, b, v)))
 	return true
 }
 
